@@ -121,14 +121,67 @@ func init() {
 				return nil // replaying a prefix: decided on an earlier path
 			}
 			roots := append(append([]*smt.Term(nil), x...), y...)
-			out, st := smt.Sweep(in.C, in.X.S, roots, 8)
-			in.X.SweepProved += st.Proved
-			in.X.SweepCandidates += st.Candidates
+			out := in.sweep(roots)
 			conj := make([]*smt.Term, len(x))
 			for i := range x {
 				conj[i] = in.C.Eq(out[i], out[len(x)+i])
 			}
 			in.assert(in.C.And(conj...), msg)
+			return nil
+		},
+		// wide (big-endian, same length) two's complement arithmetic as ONE bit-vector operation
+		"verifWideAdd": func(in *Interp, fn *ssa.Function, a []Value) Value {
+			x, y := in.sliceBytes(a[0]), in.sliceBytes(a[1])
+			if len(x) != len(y) || len(x) == 0 {
+				fail("verifWideAdd: length mismatch")
+			}
+			return in.wideResult(in.C.Add(in.C.Concat(x...), in.C.Concat(y...)), len(x))
+		},
+		"verifWideSub": func(in *Interp, fn *ssa.Function, a []Value) Value {
+			x, y := in.sliceBytes(a[0]), in.sliceBytes(a[1])
+			if len(x) != len(y) || len(x) == 0 {
+				fail("verifWideSub: length mismatch")
+			}
+			return in.wideResult(in.C.Sub(in.C.Concat(x...), in.C.Concat(y...)), len(x))
+		},
+		"verifWideEq": func(in *Interp, fn *ssa.Function, a []Value) Value {
+			x, y := in.sliceBytes(a[0]), in.sliceBytes(a[1])
+			if len(x) != len(y) || len(x) == 0 {
+				fail("verifWideEq: length mismatch")
+			}
+			return in.C.Eq(in.C.Concat(x...), in.C.Concat(y...))
+		},
+		"verifIteBytes": func(in *Interp, fn *ssa.Function, a []Value) Value {
+			x, y := in.sliceBytes(a[1]), in.sliceBytes(a[2])
+			if len(x) != len(y) || len(x) == 0 {
+				fail("verifIteBytes: length mismatch")
+			}
+			return in.wideResult(in.C.Ite(in.boolTerm(a[0]), in.C.Concat(x...), in.C.Concat(y...)), len(x))
+		},
+		// extra roots for the next verifAssertEqSweep: intermediate specification values the sweep may
+		// relate code nodes to (every relation is still proved by the solver before it is used)
+		"verifSweepHintBool": func(in *Interp, fn *ssa.Function, a []Value) Value {
+			in.sweepHints = append(in.sweepHints, in.boolTerm(a[0]))
+			return nil
+		},
+		"verifSweepHint64": func(in *Interp, fn *ssa.Function, a []Value) Value {
+			in.sweepHints = append(in.sweepHints, in.term(a[0]))
+			return nil
+		},
+		// verifAssertSweep: assertion decided after relating the condition's DAG to the hints and to
+		// itself by chained, solver-proved lemmas
+		"verifAssertSweep": func(in *Interp, fn *ssa.Function, a []Value) Value {
+			cond := in.boolTerm(a[0])
+			msg := in.concStr(a[1])
+			if in.X.pos < len(in.X.prefix) {
+				return nil
+			}
+			out := in.sweep([]*smt.Term{cond})
+			in.assert(out[0], msg)
+			return nil
+		},
+		"verifSweepHint": func(in *Interp, fn *ssa.Function, a []Value) Value {
+			in.sweepHints = append(in.sweepHints, in.sliceBytes(a[0])...)
 			return nil
 		},
 		"verifWordLevel": func(in *Interp, fn *ssa.Function, a []Value) Value {
@@ -291,6 +344,30 @@ func iBytesCap(in *Interp, fn *ssa.Function, a []Value) Value {
 }
 
 // verifUF(name string, outLen int, args ...[]byte) []byte
+func (in *Interp) sweep(roots []*smt.Term) []*smt.Term {
+	if in.X.Sweeper == nil {
+		in.X.Sweeper = smt.NewSweeper(in.C, in.X.S, 8)
+	}
+	sw := in.X.Sweeper
+	p0, c0 := sw.Stats.Proved, sw.Stats.Candidates
+	if len(in.sweepHints) > 0 {
+		sw.AddHints(in.sweepHints)
+	}
+	out := sw.Run(roots)
+	in.X.SweepProved += sw.Stats.Proved - p0
+	in.X.SweepCandidates += sw.Stats.Candidates - c0
+	return out
+}
+
+func (in *Interp) wideResult(t *smt.Term, n int) Slice {
+	bs := make([]*smt.Term, n)
+	for i := 0; i < n; i++ {
+		hi := 8*(n-i) - 1
+		bs[i] = in.C.Extract(t, hi, hi-7)
+	}
+	return in.newByteSlice(bs, n, "wide")
+}
+
 func iUF(in *Interp, fn *ssa.Function, a []Value) Value {
 	name := in.concStr(a[0])
 	outLen := in.concInt(a[1], "verifUF outLen")
